@@ -68,10 +68,20 @@ func TestVerifDriver(t *testing.T) {
 			fail[k] = true
 		}
 		calls := []vdCall{}
-		c := New[string, int](Opts[string, int]{
+		var c *Cache[string, int]
+		probe, reset := false, ""
+		var probeDone chan struct{}
+		c = New[string, int](Opts[string, int]{
 			Age:   time.Duration(p.Age) * tick,
 			Count: p.Count,
 			PruneFn: func(k string, _ int) error {
+				if probe && reset == "" {
+					// another goroutine sets this key while its cleanup runs (real time: it gets a few milliseconds)
+					reset = k
+					probeDone = make(chan struct{})
+					go func() { c.Set(k, 2); close(probeDone) }()
+					time.Sleep(4 * time.Millisecond)
+				}
 				if fail[k] {
 					calls = append(calls, vdCall{K: k, OK: false})
 					return fmt.Errorf("cleanup of %s fails", k)
@@ -100,7 +110,12 @@ func TestVerifDriver(t *testing.T) {
 			case "Tick":
 				vAdvance(time.Duration(p.Step) * tick)
 			case "TimerFire":
+				probe, reset, probeDone = events%2 == 0, "", nil
 				fired = vFireDue()
+				probe = false
+				if probeDone != nil {
+					<-probeDone
+				}
 			case "PruneCount":
 				fired = vRunOne()
 			case "End":
@@ -112,8 +127,13 @@ func TestVerifDriver(t *testing.T) {
 			armed := c.timer != nil && c.timer.active
 			c.mu.Unlock()
 			events++
-			_ = enc.Encode(map[string]any{"k": "op", "trace": trace, "i": events, "op": op, "members": members, "calls": calls,
-				"timer": armed, "pending": vPending(), "fired": fired})
+			ev := map[string]any{"k": "op", "trace": trace, "i": events, "op": op, "members": members, "calls": calls,
+				"timer": armed, "pending": vPending(), "fired": fired}
+			if op.Op == "TimerFire" && reset != "" {
+				ev["reset"] = reset
+			}
+			reset = ""
+			_ = enc.Encode(ev)
 		}
 	}
 	t.Logf("verif cache driver: %d programs, %d events", n, events)
